@@ -398,4 +398,174 @@ def r6_4(run):
     run.floor(5)
 
 
-RULES = [("R6.1", r6_1), ("R6.2", r6_2), ("R6.3", r6_3), ("R6.4", r6_4)]
+def _anf_of(run, f):
+    """ANF summary of a function, shared between the package-wide rules of one run"""
+    from ..arrnf import ANF, Unsupported as AUnsupported
+    cache = run.__dict__.setdefault("_anf_cache", {})
+    if f.qualname not in cache:
+        try:
+            cache[f.qualname] = ANF(run.index, f).run()
+        except AUnsupported:
+            cache[f.qualname] = None
+    return cache[f.qualname]
+
+
+def _is_pair_call(x):
+    return x[0] == "call" and x[1] in (("x", "numpy.where"), ("x", "numpy.nonzero")) and len(x[2]) == 1
+
+
+def _pair_calls(t):
+    """np.where / np.nonzero calls with one (condition) argument: their outputs are parallel arrays in pair order"""
+    from ..arrnf import walk
+    return [x for x in walk(t) if x[0] == "call" and x[1] in (("x", "numpy.where"), ("x", "numpy.nonzero")) and len(x[2]) == 1]
+
+
+def r6_5(run):
+    """index domains of np.where outputs: the k outputs of np.where(cond) are parallel arrays in *pair order* whose values are
+    positions along axis k of cond.  Indexing one output with another (or with anything that is not a selection of pairs),
+    and storing an output over *all* rows of an array, confuses the pair order with a row order: the result then depends
+    on how table order and lookup order relate (it is right only for involutive permutations)."""
+    from ..arrnf import ANF, FULL, key as tkey, show as tshow, walk, Unsupported as AUnsupported
+    ix = run.index
+    n_fn, n_calls = 0, 0
+    for f in ix.all_functions():
+        if ".test." in f.qualname:
+            continue
+        r = _anf_of(run, f)
+        if r is None:
+            continue
+        n_fn += 1
+        seen = set()
+        for e in r.events:
+            terms = []
+            if e.kind == "store":
+                terms = [("idx", e.base, e.index), e.value]
+            elif e.kind == "call":
+                terms = [e.term]
+            elif e.kind in ("return", "raise"):
+                terms = [e.value]
+            for t in terms:
+                for x in walk(t):
+                    if x[0] == "idx" and x[1][0] == "proj" and _is_pair_call(x[1][1]):
+                        W = x[1][1]
+                        for sel in x[2]:
+                            if any(y[0] == "proj" and tkey(y[1]) == tkey(W) for y in walk(sel)):
+                                k = "%s|where-output-indexed-by-where-output|%s" % (f.short, tshow(x)[:60])
+                                if k not in seen:
+                                    seen.add(k)
+                                    run.ob(k, False, "an output of np.where (pair order) is not indexed with positions taken from "
+                                           "another output of the same call", run.where(f, e.node), detail=tshow(x)[:200])
+            if e.kind == "store" and len(e.index) >= 1 and e.index[0] == FULL and e.value[0] == "proj" and _is_pair_call(e.value[1]) \
+                    and _is_outer_compare(e.value[1][2][0]):
+                k = "%s|where-output-stored-over-all-rows|%s" % (f.short, tshow(e.base)[:40])
+                if k not in seen:
+                    seen.add(k)
+                    run.ob(k, False, "an output of np.where over an outer comparison (pair order) is scattered by the positions of the "
+                           "other output, not stored over all rows", run.where(f, e.node), detail=tshow(e.value)[:200])
+        # the scatter that is right: arr[proj(W, j), c] = proj(W, i)  (reported as discharged obligation for non-vacuity)
+        for e in r.events:
+            if e.kind == "store" and e.value[0] == "proj" and _is_pair_call(e.value[1]) and len(e.index) >= 1 \
+                    and e.index[0][0] == "proj" and tkey(e.index[0][1]) == tkey(e.value[1]) and e.index[0][2] != e.value[2]:
+                run.ob("%s|pair-scatter|%s" % (f.short, tshow(e.base)[:40]), True,
+                       "values from one np.where output are scattered to the positions given by the other output", run.where(f, e.node))
+    run.stat("functions_scanned_for_where_pairs", n_fn)
+    run.ob("where-pairs|functions-scanned", n_fn >= 500, "functions of the package scanned: %d" % n_fn, "src/pandapipes")
+    run.floor(2)
+
+
+def _is_outer_compare(c):
+    """A == B[:, None] (or the mirrored form): a 2-d comparison of two 1-d arrays"""
+    from ..arrnf import FULL, C
+    if c[0] != "cmp" or c[1] != "==":
+        return False
+    def col(t):
+        return t[0] == "idx" and len(t[2]) == 2 and ((t[2][0] == FULL and t[2][1] == C(None)) or (t[2][1] == FULL and t[2][0] == C(None)))
+    return col(c[2]) != col(c[3])
+
+
+def r6_6(run):
+    """labels are names, not numbers: a user label (a reference column of an element table, a table index) never enters
+    arithmetic (+ - * / // % **) in the package; it may be compared, sorted, made unique, and used as index of an index lookup.
+    An arithmetic combination of labels (a scalar key built from two labels, label + offset) is injective or in range only for
+    particular labellings."""
+    from ..arrnf import ANF, C, FULL, key as tkey, show as tshow, walk, Unsupported as AUnsupported
+    from .c16 import reference_columns
+    ix = run.index
+    refs = reference_columns(ix)
+    refcols = {c for d in refs.values() for c, k in d.items() if k != "std_type"}
+
+    def is_label(t, depth=0):
+        """term denotes user labels (possibly selected / viewed)"""
+        if depth > 8:
+            return False
+        if t[0] == "attr" and t[2] in ("values", "index", "array"):
+            if t[2] == "index":
+                return _is_net_table(t[1])
+            return is_label(t[1], depth + 1)
+        if t[0] == "call" and t[1][0] == "attr" and t[1][2] in ("to_numpy", "astype", "copy", "tolist") :
+            return is_label(t[1][1], depth + 1)
+        if t[0] == "idx":
+            b, i = t[1], t[2]
+            if _is_net_table(b) and len(i) == 1:
+                k = i[0]
+                if k[0] == "c" and k[1] in refcols:
+                    return True
+                # table[list(cls.from_to_node_cols())] / table[fn_col]
+                if any(y[0] == "call" and y[1][0] == "attr" and y[1][2] == "from_to_node_cols" for y in walk(k)):
+                    return True
+                return False
+            # selection of labels by mask / slice / constant position keeps labels
+            if all(j[0] in ("slice", "c") or j[0] in ("n", "cmp", "opn", "u", "call") for j in i) and is_label(b, depth + 1) \
+                    and not any(is_label(j, depth + 1) for j in i):
+                return True
+        return False
+
+    def _is_net_table(t):
+        if t[0] == "idx" and t[1] == ("n", "net") and len(t[2]) == 1:
+            k = t[2][0]
+            return not (k[0] == "c" and (k[1].startswith("_") or k[1].startswith("res_")))
+        if t[0] == "idx" and len(t[2]) == 1 and _is_net_table(t[1]) and t[2][0][0] not in ("c",) and t[2][0][0] in ("cmp", "opn", "u", "attr"):
+            return True        # table filtered by a row mask
+        return False
+
+    n_fn, n_lab = 0, 0
+    for f in ix.all_functions():
+        if ".test." in f.qualname or f.module.startswith(("pandapipes.plotting", "pandapipes.converter", "pandapipes.networks")):
+            continue
+        r = _anf_of(run, f)
+        if r is None:
+            continue
+        n_fn += 1
+        seen = set()
+        for e in r.events:
+            terms = []
+            if e.kind == "store":
+                terms = [e.value] + list(e.index)
+            elif e.kind == "call":
+                terms = [e.term]
+            elif e.kind in ("return", "raise"):
+                terms = [e.value]
+            for t in terms:
+                for x in walk(t):
+                    ops = ()
+                    if x[0] == "opn" and x[1] in ("+", "*"):
+                        ops = x[2]
+                    elif x[0] == "op" and x[1] in ("-", "/", "//", "%", "**"):
+                        ops = (x[2], x[3])
+                        if x[1] == "%" and x[2][0] == "c" and isinstance(x[2][1], str):
+                            ops = ()        # string formatting of a message
+                    for o in ops:
+                        if is_label(o):
+                            k = "%s|label-in-arithmetic|%s" % (f.short, tshow(o)[:60])
+                            if k not in seen:
+                                seen.add(k)
+                                run.ob(k, False, "user labels do not enter arithmetic", run.where(f, e.node), detail=tshow(x)[:240])
+                    if x[0] == "idx" and len(x[2]) == 1 and x[2][0][0] == "c" and x[2][0][1] in refcols and _is_net_table(x[1]):
+                        n_lab += 1
+    run.stat("label_terms_seen", n_lab)
+    run.ob("label-arithmetic|functions-scanned", n_fn >= 400 and n_lab >= 20,
+           "functions scanned: %d, label-valued terms seen: %d" % (n_fn, n_lab), "src/pandapipes")
+    run.floor(1)
+
+
+RULES = [("R6.1", r6_1), ("R6.2", r6_2), ("R6.3", r6_3), ("R6.4", r6_4), ("R6.5", r6_5), ("R6.6", r6_6)]
